@@ -207,6 +207,9 @@ def gen(t, tier):
         sc['eager'] = bool(t.chance(0.6))
         # threads can also be switched between two statements of compact.py (line events), not only at system calls
         sc['linepreempt'] = t.pick([None, 40, 300, 2000]) if sc['threads'] else None
+        # the wall clock jumps forward (NTP step, resumed virtual machine) while the writers are at work: waiting writers may
+        # give up with a lock time-out, nobody may get into a bundle that another writer is still inside
+        sc['clock_jump'] = {'at': t.choice(400), 'by': t.pick([100.0, 600.0, 4000.0])} if t.chance(0.2) else None
     return sc
 
 
@@ -546,13 +549,27 @@ def _run_conc(sc, tape, b, name, probes):
                     raise
                 except Exception as ex:
                     from simkit.sched import SimAbort, SimCrash
+                    from mapproxy.util.lock import LockTimeout
                     if isinstance(ex, (SimAbort, SimCrash)):
                         raise
+                    if jumped[0] and isinstance(ex, LockTimeout):
+                        # by the stepped clock the writer has waited longer than its time-out: the operation did not happen
+                        # (or only part of it) - its addresses may hold any value stored so far
+                        for bb_ in list(in_bundle):
+                            in_bundle[bb_].discard(pi)
+                        for c_ in ([op[1]] if op[0] in ('store', 'remove') else
+                                   [x[0] for x in op[2]] if op[0] == 'store_many' else list(op[2]) if op[0] == 'remove_many' else []):
+                            unsure.add(tuple(c_))
+                        probes['lock_timeouts_after_clock_step'] = probes.get('lock_timeouts_after_clock_step', 0) + 1
+                        continue
                     import traceback
                     viol.append(('raises:' + type(ex).__name__, '%s raised %r\n%s' % (
                         what, ex, ''.join(traceback.format_tb(ex.__traceback__)[-3:]))))
                     sched.abort('violation')
         return fn
+
+    jumped = [False]
+    unsure = set()
 
     def _enter(bb, pi):
         s = in_bundle.setdefault(bb, set())
@@ -577,6 +594,13 @@ def _run_conc(sc, tape, b, name, probes):
         server = w.new_proc('server') if sc.get('threads') else None
         if sc.get('linepreempt'):
             sched.enable_line_preemption(['mapproxy/cache/compact.py'], sc['linepreempt'])
+        if sc.get('clock_jump'):
+            def on_yield(task, kind, key):
+                if not jumped[0] and sched.steps >= sc['clock_jump']['at']:
+                    jumped[0] = True
+                    w.clock.now += sc['clock_jump']['by']
+                    probes['clock_stepped_forward'] = 1
+            sched.on_yield = on_yield
         for pi, ops in enumerate(sc['procs']):
             sched.spawn(proc_fn(pi, ops), 'w%d' % pi, server or w.new_proc('p%d' % pi))
         outcome = w.run_tasks()
@@ -605,6 +629,9 @@ def _run_conc(sc, tape, b, name, probes):
                             touched = True
                     if not touched:
                         allowed.add(None)
+                    if tuple(c) in unsure:
+                        allowed.add(None)
+                        allowed.update(stored.get(tuple(c), ()))
                     if got not in allowed:
                         kind = 'lost' if got is None else 'wrong-bytes'
                         raise M.Mismatch('concurrent-' + kind, 'at quiescence address %s returns %s; the last store of '
